@@ -824,6 +824,9 @@ func (x *Exec) doBuiltin(fr *Frame, name string, c *ssa.CallCommon, args []*Sym,
 		return nil
 	case "print", "println":
 		return nil
+	case "close":
+		addUnique(&x.report.Abstracted, "close(channel): no effect on the modelled state (a panic on a nil or closed channel is not modelled)")
+		return nil
 	case "min", "max":
 		a, b := args[0], args[1]
 		_, sg := intInfo(a.T)
